@@ -12,7 +12,7 @@ from vlib.api import H, cover
 from vlib.lift import b, t
 
 from twisted.python.compat import nativeString as _real_native
-from twisted.web._stan import CDATA, Comment, Tag, slot
+from twisted.web._stan import Comment, Tag, slot
 
 PROPERTY = "C28"
 LEVEL = "model_checking"
@@ -20,7 +20,7 @@ ENCODED = ["twisted.web._flatten:escapeForContent", "twisted.web._flatten:attrib
            "twisted.web._flatten:writeWithAttributeEscaping", "twisted.web._flatten:escapedCDATA",
            "twisted.web._flatten:escapedComment", "twisted.web._flatten:_flattenElement",
            "twisted.web._flatten:_flattenTree", "twisted.web._flatten:flatten"]
-BOUNDS = {"quick": {"n": 4, "nc": 6, "m": 3}, "thorough": {"n": 6, "nc": 8, "m": 5}}
+BOUNDS = {"quick": {"n": 4, "nc": 6, "m": 3}, "thorough": {"n": 6, "nc": 8, "m": 4}}
 B = {}
 BOUNDS_TEXT = ("leaf functions: content of <= n characters (CDATA: <= nc), given as str (code points < 128) and as bytes (all 256 "
                "values); trees <p b=Y>{slot X}</p> and <div><!--X--><a href={<i>Y</i>}></a></div> with "
@@ -595,8 +595,11 @@ def tree_div(x: str, y: str) -> bool:
     return inner == exp
 
 
-_C4 = ["x[0] <= '&'", "'&' < x[0] <= '-'", "'-' < x[0] <= '<'", "x[0] > '<'"]
-_C2 = ["x[0] <= '-'", "x[0] > '-'"]
+# case split on the first character(s): one shard per character that some escaper or tokenizer state
+# treats specially, one for all the others (splitting a "don't care" range would only repeat work)
+_SPECIAL = "&<>\"-!]"
+_C5 = ["%s == '&'", "%s == '<'", "%s == '>'", "%s in '\"-!]'", "%s not in _SPECIAL"]
+_C2 = ["%s in _SPECIAL", "%s not in _SPECIAL"]
 
 
 def _leaf_shards(split, key="n"):
@@ -606,13 +609,14 @@ def _leaf_shards(split, key="n"):
         for ab in (False, True):
             out.append(("asbytes == %s" % ab, "len(x) <= %d" % (n - 2)))
             out.append(("asbytes == %s" % ab, "len(x) == %d" % (n - 1)))
-            cls = [None]
+            cls = [()]
             if split:
-                cls = _C2 if ab else _C4
-                if tier != "quick":
-                    cls = [c + " and " + c2.replace("x[0]", "x[1]") for c in _C4 for c2 in _C4]
+                if tier == "quick":
+                    cls = [(c % "x[0]",) for c in (_C2 if ab else _C5)]
+                else:
+                    cls = [(c % "x[0]", c2 % "x[1]") for c in _C5 for c2 in (_C2 if ab else _C5)]
             for c in cls:
-                out.append(("asbytes == %s" % ab, "len(x) == %d" % n) + ((c,) if c else ()))
+                out.append(("asbytes == %s" % ab, "len(x) == %d" % n) + c)
         return out
     return shards
 
